@@ -36,6 +36,12 @@ CHECKS["C08"] = dict(
   text="Arbitrary tag memory (valid layouts mutated at CC/TLV/attribute/NLEN level, random images, less memory than declared) and arbitrary well-framed answers (then silence or endless repetition) are activated and read through nfc.tag.activate/tag.ndef/has_changed; any exception, a command count beyond a budget derived from the declared structure, length > capacity or capacity > declared area is a violation.",
   note=TRUST + "Budgets and 'well-framed' are defined in the evidence assumptions. Known finding C08-wtx-forever (unbounded consecutive S(WTX)) is excluded by signature.")
 
+CHECKS["C20"] = dict(
+  category="exploration",
+  technique="property-based testing (Hypothesis) + exhaustive single-bit enumeration: FeliCa Lite/Lite-S and NTAG21x simulators with an independently written MAC/session-key computation; passwords, one-bit-off keys, tampered responses",
+  text="authenticate() must be True exactly for the tag's key (modulo DES parity) / PWD+PACK; every single-bit flip of the authentication and MAC'd-read responses and random tampering must never yield True for a wrong key or altered data from read_with_mac; protect(pw) then authenticate(pw/other). Exhaustive over all 128/48 one-bit key changes and all response bit positions for the explored configurations.",
+  note=TRUST + "vlib/ref_felica.py reproduces every recorded MAC of tests/test_tag_tt3_sony.py; simulators vlib/simfelica.py, vlib/simntag.py replay the recorded transcripts. Exceptions that are not wrong results are labelled c16:* and left to C16.")
+
 PENDING_REASON = "not claimed yet: its generated-input check (DESIGN.md section 3) is still under construction in this session; nothing is asserted about it"
 
 def main():
